@@ -312,6 +312,7 @@ def u_get_and_grad(U):
     ex = U.executor(fn, loops={0: {'inv': inv, 'havoc': ('grad',)}}, axioms=AXG)
     ex.mode = 'ematch'
     ex.core_iface = ex.core_grad = True
+    ex.allow_shared_store = True      # `Q[:, k, :] = ..` on the loop variable writes through to grad[k]: handled by the core_grad hook + havoc of grad
     st.vars.update(Y=Y, i=iv, check_phi=False)
     res = U.run(ex, st, pre=pre)
     U.assumed.append('act_one.interface (units act_one.interface.P-i.none.rtl / .ltr)')
